@@ -176,7 +176,27 @@ def expand_test(ctx, f, test: ast.AST, binds=None, depth: int = 3) -> ast.AST:
         e = inline_predicate(ctx, f, test)
         if e is not None:
             return expand_test(ctx, f, e, binds, depth - 1)
-    return test
+    return _dealias(f.node, test, binds)
+
+
+def _dealias(fnode, expr: ast.AST, binds) -> ast.AST:
+    """inside an atomic condition: locals bound once to a plain attribute chain (`exc = self._rollback_exception`,
+    `sess = self.session`) are replaced by the chain, so `exc is None` reads `self._rollback_exception is None`"""
+    mapping = {}
+    for n in ast.walk(expr):
+        if isinstance(n, ast.Name) and isinstance(n.ctx, ast.Load) and n.id not in mapping:
+            v = single_value(fnode, n.id, binds)
+            hops = 0
+            while isinstance(v, ast.Name) and hops < 3:
+                v2 = single_value(fnode, v.id, binds)
+                if v2 is None:
+                    break
+                v, hops = v2, hops + 1
+            if isinstance(v, ast.Attribute):
+                d = dotted(v)
+                if d is not None and "()" not in d:
+                    mapping[n.id] = v
+    return substitute(expr, mapping) if mapping else expr
 
 
 def dominating_guards(g, pm, fnode, node: ast.AST, stmt: Optional[ast.stmt] = None) -> List[Tuple[ast.AST, bool]]:
